@@ -10,7 +10,7 @@ from .. import gen, probe, monitors_sle, monitors_evp
 from ..dense import dense, mat
 from ..drive import call
 from ..shard import Workload
-from ._common import arm_tt
+from ._common import arm_light
 
 P = 'C08'
 tt = None
@@ -19,7 +19,7 @@ evp = None
 
 def setup(ctx):
     global tt, evp
-    tt = arm_tt(ctx)
+    tt = arm_light(ctx)
     monitors_sle.install()
     evp = monitors_evp.install()
 
